@@ -417,13 +417,17 @@ var (
 func (k *Kernel) Read(fd int, p []byte) (int, syscall.Errno) {
 	w := k.w
 	w.Yield("read")
-	if e := w.inject(CkRead); e != 0 {
-		return -1, e
-	}
 	f := k.get(fd)
 	if f == nil {
 		w.Stat(statBadFd)
 		return -1, syscall.EBADF
+	}
+	// injected I/O errors are for sockets, pipes and files; an eventfd or
+	// timerfd read cannot fail that way
+	if f.kind != fkEventfd && f.kind != fkTimerfd {
+		if e := w.inject(CkRead); e != 0 {
+			return -1, e
+		}
 	}
 	for {
 		n, e := k.read1(f, p)
@@ -493,13 +497,15 @@ func (k *Kernel) read1(f *file, p []byte) (int, syscall.Errno) {
 func (k *Kernel) Write(fd int, p []byte) (int, syscall.Errno) {
 	w := k.w
 	w.Yield("write")
-	if e := w.inject(CkWrite); e != 0 {
-		return -1, e
-	}
 	f := k.get(fd)
 	if f == nil {
 		w.Stat(statBadFd)
 		return -1, syscall.EBADF
+	}
+	if f.kind != fkEventfd && f.kind != fkTimerfd {
+		if e := w.inject(CkWrite); e != 0 {
+			return -1, e
+		}
 	}
 	for {
 		n, e := k.write1(f, p)
